@@ -129,14 +129,14 @@ Qed.
    deepdiff.extract to the reported value, which matches the item *)
 Theorem sound_extract_partial :
   forall (brepr : pystr -> pystr) (re_search excl_re : pystr -> bool) (re_text : pystr)
-         (sa ba : list pystr) (c : config) (item : atom) (obj : value) (cs : bool)
+         (sa ba : list pystr) (c : config) (item : value) (obj : value) (cs : bool)
          (it : eitem) (evs : list event),
     wf obj = true ->
     prepare brepr c item = PItem cs it ->
     deep_search brepr re_search excl_re re_text sa ba c item obj = ROk evs ->
     forall (q : path) (v : value),
       In (EvValue q v) evs -> tame_path q = true -> set_free_along obj q = true ->
-      PathModel.extract obj (render brepr q) = Some v /\ leaf_match brepr re_search c cs it v = true.
+      PathModel.extract obj (render brepr q) = Some v /\ item_match brepr re_search c cs it v = true.
 Proof.
   intros brepr re_search excl_re re_text sa ba c item obj cs it evs Hwf Hp Hr q v Hin Ht Hs.
   destruct (final_sound _ _ _ _ _ _ _ _ _ _ _ _ Hwf Hp Hr q v Hin) as [Hg Hm]. split; auto.
@@ -148,7 +148,7 @@ Qed.
 (* the same for matched_paths entries *)
 Theorem paths_extract_partial :
   forall (brepr : pystr -> pystr) (re_search excl_re : pystr -> bool) (re_text : pystr)
-         (sa ba : list pystr) (c : config) (item : atom) (obj : value) (cs : bool)
+         (sa ba : list pystr) (c : config) (item : value) (obj : value) (cs : bool)
          (it : eitem) (evs : list event),
     wf obj = true ->
     prepare brepr c item = PItem cs it ->
@@ -169,7 +169,7 @@ Qed.
 (* K16g: DeepSearch({"a'b": 'x'}, 'x') reports root['a'b'], which extract cannot resolve *)
 Local Open Scope string_scope.
 Definition k16g_obj := VDict [(AStr (s2p "a'b"), VAtom (AStr (s2p "x")))].
-Definition k16g_item := AStr (s2p "x").
+Definition k16g_item := VAtom (AStr (s2p "x")).
 Theorem sound_extract_refuted :
   exists evs q v,
     wf k16g_obj = true /\
